@@ -152,7 +152,30 @@ func init() {
 					return "e=" + ErrName(err)
 				}
 			}
-			return "e=nil;v=" + DumpDeref(reflect.ValueOf(got)) + ";live=" + liveBit(a, path, got)
+			obs := "e=nil;v=" + DumpDeref(reflect.ValueOf(got)) + ";live=" + liveBit(a, path, got)
+			if to && t.Kind() == reflect.Struct && form == "p" {
+				// a caller may reuse one buffer for consecutive GetTo calls: warm the buffer up with a reference to each
+				// top-level field, then repeat the call - the answer must be the same and the object untouched
+				for i := 0; i < t.NumField(); i++ {
+					a2, after2 := Arg(t, form, value)
+					before := after2()
+					var buf any
+					if ins.GetTo(a2, &buf, t.Field(i).Name) != nil {
+						continue
+					}
+					if err2 := ins.GetTo(a2, &buf, path...); err2 != nil {
+						continue
+					}
+					obs2 := "e=nil;v=" + DumpDeref(reflect.ValueOf(buf)) + ";live=" + liveBit(a2, path, buf)
+					if after2() != before {
+						return obs + ";REUSED-BUFFER:object-changed-after-" + t.Field(i).Name
+					}
+					if obs2 != obs {
+						return obs + ";REUSED-BUFFER:answer-" + obs2
+					}
+				}
+			}
+			return obs
 		}
 	}
 	ops["get"] = mk(false)
